@@ -3,6 +3,7 @@ module verif/harness
 go 1.21
 
 require (
+	github.com/cosnicolaou/pbzip2 v1.0.3
 	github.com/pojntfx/stfs v0.0.0
 	github.com/spf13/afero v1.11.0
 	modernc.org/sqlite v1.31.1
@@ -16,7 +17,6 @@ require (
 	github.com/ProtonMail/gopenpgp/v2 v2.7.5 // indirect
 	github.com/andybalholm/brotli v1.1.0 // indirect
 	github.com/cloudflare/circl v1.3.9 // indirect
-	github.com/cosnicolaou/pbzip2 v1.0.3 // indirect
 	github.com/dsnet/compress v0.0.1 // indirect
 	github.com/dustin/go-humanize v1.0.1 // indirect
 	github.com/fclairamb/go-log v0.5.0 // indirect
